@@ -64,6 +64,8 @@ type caseCfg struct {
 	// every stage is a chain of 3 plugins: the one at pos[stage] returns the stage's verdict,
 	// those before it pass (nil or a non-nil OK status), decoy[stage] is what the LAST plugin
 	// would answer if it were (wrongly) still asked
+	parkPostWrite chan struct{} // the server's PostWriteReply hook parks until closed
+	parkReached   chan struct{}
 	pos    map[string]int
 	decoy  map[string]statusSpec
 	called map[string][]int
@@ -156,6 +158,15 @@ func (p splugin) PostReadCallHeader(erpc.ReadCtx) *erpc.Status {
 func (p splugin) PreReadCallBody(erpc.ReadCtx) *erpc.Status  { return chainAct(curS(), "prcb", p.idx) }
 func (p splugin) PostReadCallBody(erpc.ReadCtx) *erpc.Status { return chainAct(curS(), "porcb", p.idx) }
 
+// PostWriteReply: keeps the server's handler goroutine busy after the reply is on the wire
+func (p splugin) PostWriteReply(erpc.WriteCtx) *erpc.Status {
+	if c := cur; c != nil && p.idx == 0 && c.parkPostWrite != nil {
+		close(c.parkReached)
+		<-c.parkPostWrite
+	}
+	return nil
+}
+
 type cplugin struct{ idx int }
 
 func (p cplugin) Name() string                                { return "client-verdict-" + strconv.Itoa(p.idx) }
@@ -218,6 +229,9 @@ func H(ctx erpc.CallCtx, a *Arg) (interface{}, *erpc.Status) {
 	}
 	if cur != nil && cur.handler == "nilresult" {
 		return nil, st
+	}
+	if cur != nil && cur.handler == "unmarshalable" {
+		return make(chan int), st // no body codec can marshal a channel
 	}
 	if cur != nil && cur.mismatch {
 		return 3, st
@@ -400,6 +414,13 @@ func (l *link) run(c *caseCfg) observation {
 		check  func() (bool, string)
 	)
 	switch {
+	case c.codec == 't' && c.mismatch:
+		// a result object that is not a thrift struct
+		sm = l.pathHT
+		args = &Test{Author: "ann"}
+		var r string
+		result = &r
+		check = func() (bool, string) { return false, fmt.Sprintf("%q", r) }
 	case c.codec == 't':
 		sm = l.pathHT
 		args = &Test{Author: "ann"}
@@ -478,11 +499,55 @@ func (l *link) run(c *caseCfg) observation {
 		return o
 	}
 	o.resultMatch, o.resultRepr = check()
+	if c.mismatch && c.proto == "thrift-struct" {
+		// the reply could not even be read: the caller's read loop ended
+		WaitUntil(5*time.Second, func() bool { return !sess.Health() })
+		l.sess = nil
+	}
 	if c.failure == "f102" {
 		WaitUntil(5*time.Second, func() bool { return !sess.Health() })
 		l.sess = nil
 	}
 	return o
+}
+
+// runPoolStarved: the process-wide goroutine pool has room for the two read loops and ONE
+// handler; the server's handler goroutine is kept busy in PostWriteReply after the reply is on
+// the wire, so the caller's read loop finds no goroutine for the reply it has just read.
+func (l *link) runPoolStarved(c *caseCfg) (observation, bool) {
+	if l.sess != nil {
+		go l.sess.Close()
+		l.sess = nil
+	}
+	erpc.SetGopool(3, time.Minute)
+	defer func() {
+		erpc.SetGopool(1<<20, time.Minute)
+		l.sess = nil // its read loops belong to the small pool
+	}()
+	c.parkPostWrite, c.parkReached = make(chan struct{}), make(chan struct{})
+	released := false
+	release := func() {
+		if !released {
+			released = true
+			close(c.parkPostWrite)
+		}
+	}
+	defer release()
+	res := make(chan observation, 1)
+	go func() { res <- l.run(c) }()
+	select {
+	case <-c.parkReached:
+	case o := <-res:
+		// the server had no goroutine either (or the call failed earlier): not the scenario
+		_ = o
+		return o, false
+	}
+	select {
+	case o := <-res:
+		return o, true
+	case <-time.After(callWatchdog + 2*time.Second):
+		return observation{hung: true}, true
+	}
 }
 
 // ---------------------------------------------------------------- expectation (the property)
@@ -517,6 +582,8 @@ func (c *caseCfg) serverStatus() (statusSpec, bool, bool) { // status, codeOnly,
 		return statusSpec{102, "Connection Closed", ""}, true, true
 	}
 	switch c.handler {
+	case "unmarshalable":
+		return statusSpec{500, "Internal Server Error", ""}, true, true
 	case "panic":
 		return statusSpec{500, "Internal Server Error", c.pval}, false, true
 	case "status":
@@ -654,13 +721,19 @@ func (c *caseCfg) inputs() string {
 	if c.failure == "f102" {
 		w = "closed"
 	}
+	wok := w
+	if c.handler == "unmarshalable" && w == "ok" {
+		wok = "refused"
+	}
 	frame := VL(VZ(1), VB([]byte{1}), VBool(false), VS(route), read, VL(vs...), h,
-		VS(w), VS(w), VS(w), VBool(false), VBool(false), VBool(true), VBool(true))
+		VS(wok), VS(w), VS(w), VBool(false), VBool(false), VBool(true), VBool(true))
 	cv := func(k string) string { return c.chainVal(c.cVerdict, k) }
 	pw := cv("pwc")
 	dec := VS("ok")
 	if c.mismatch {
-		dec = VL(VS("err"), VBool(true))
+		// json: the codec is known when decoding fails; thrift struct protocol: the body codec
+		// is only recorded after the struct was read
+		dec = VL(VS("err"), VBool(c.proto != "thrift-struct"))
 	}
 	return VL(VBool(hasStatusField(c.proto)), VBool(true), frame, pw, cv("porh"), cv("prrb"), cv("porrb"), dec,
 		VBool(c.handler != "nilresult"), VBool(true))
@@ -675,6 +748,8 @@ func (c *caseCfg) observedVal(o observation) string {
 		lib := false
 		switch {
 		case o.code == 400 && o.msg == "Bad Message", o.code == 102 && o.msg == "Connection Closed":
+			lib = true
+		case o.code == 500 && o.msg == "Internal Server Error" && c.handler == "unmarshalable":
 			lib = true
 		}
 		for _, v := range c.sVerdict {
@@ -795,9 +870,12 @@ func genCase(cfg *RunCfg, proto string) *caseCfg {
 			c.failure = "f102"
 		}
 	default:
-		if c.codec == 'j' {
+		if c.codec == 'j' || proto == "thrift-struct" {
 			c.mismatch = true
 		}
+	}
+	if c.handler == "ok" && c.failure == "none" && !c.mismatch && (c.codec == 'j' || c.codec == 'x') && r.Intn(8) == 0 {
+		c.handler = "unmarshalable"
 	}
 	if r.Intn(4) == 0 {
 		stg := []string{"prch", "prcb", "porcb"}[r.Intn(3)]
@@ -810,6 +888,13 @@ func genCase(cfg *RunCfg, proto string) *caseCfg {
 	if r.Intn(5) == 0 {
 		stg := []string{"pwc", "porh", "prrb", "porrb"}[r.Intn(4)]
 		c.cVerdict[stg] = genStatus(cfg, true, "cp-"+stg, true)
+	}
+	if c.mismatch && proto == "thrift-struct" {
+		// this protocol always carries a struct, even in an error reply: with a result object
+		// that is not a thrift struct NO reply can be read (400); keep the class to what the
+		// property speaks about, an OK reply that cannot be decoded
+		c.sVerdict = map[string]statusSpec{}
+		c.handler, c.failure = "ok", "none"
 	}
 	c.pos, c.decoy = map[string]int{}, map[string]statusSpec{}
 	for _, vm := range []map[string]statusSpec{c.sVerdict, c.cVerdict} {
@@ -1052,6 +1137,20 @@ func child(cfg *RunCfg, proto string) {
 			rawOracle(st, i, rc, o)
 			w.Add(rc.inputs(), rc.c.observedVal(o))
 			distinct.Add(rc.human())
+			continue
+		}
+		if i%40 == 17 {
+			c := &caseCfg{proto: proto, codec: codecsFor(proto)[0], failure: "none", handler: "ok",
+				sVerdict: map[string]statusSpec{}, cVerdict: map[string]statusSpec{}}
+			o, scenario := l.runPoolStarved(c)
+			if !scenario {
+				st.Count("pool-starved:not-reached")
+				continue
+			}
+			st.Count("proto:" + proto)
+			st.Count("pool-starved:reply-without-goroutine")
+			oracle(st, i, c, o)
+			w.Add(c.inputs(), c.observedVal(o))
 			continue
 		}
 		c := genCase(cfg, proto)
